@@ -201,7 +201,9 @@ PathItemShapes(st) ==
 (* from the universe's files, so a relative reference must be asked for at that host again        *)
 (* file_abs_reuse: the Loader first fails to load a copy of the root document placed where none of  *)
 (* the external files exist, then loads the real one: a used Loader must behave like a fresh one    *)
-Entries == {"file_abs", "file_rel", "datapath", "file_rel_default", "uri_remote", "file_abs_reuse"}
+(* data / reader: LoadFromData / LoadFromIoReader -- the document has no location of its own and     *)
+(* relative references resolve against the working directory (the harness stands in the root's dir) *)
+Entries == {"file_abs", "file_rel", "datapath", "file_rel_default", "uri_remote", "file_abs_reuse", "data", "reader"}
 
 QuickSlice(sh, st, e, pos) ==
    \/ (st \in {"plain", "abspath", "http"} /\ e = "file_abs")
@@ -212,6 +214,7 @@ QuickSlice(sh, st, e, pos) ==
    \/ (sh.shape \in {"direct", "child", "pi_direct", "pi_wholefile", "pi_child"} /\ st = "plain" /\ pos = "op")
    \/ (sh.shape \in {"direct", "chain3", "wholefile"} /\ e = "file_rel_default" /\ pos = "op")
    \/ (sh.shape \in {"direct", "chain3", "wholefile", "child", "diamond", "selfcycle", "crossdoc_local"} /\ e = "file_abs_reuse" /\ st = "plain")
+   \/ (sh.shape \in {"direct", "chain3", "wholefile", "child", "childdeep", "selfcycle", "sameroot", "dangling"} /\ e \in {"data", "reader"} /\ st \in {"plain", "abspath"})
    \/ (sh.shape \in {"direct", "chain3", "wholefile", "child", "backref"} /\ e = "uri_remote" /\ st \in {"plain", "updown"} /\ pos = "op")
 
 CONSTANT Allows      \* settings of IsExternalRefsAllowed to generate
